@@ -43,9 +43,13 @@ func (e *Enc) mapInfoOf(t types.Type) mapInfo {
 
 // normKeyLeaves lists the leaves of a key value in flatten order; fixed-size scalar arrays are normalised to
 // their first N elements (SMT arrays are total, Go compares N elements).
-func normKeyLeaves(v Value, t types.Type) []Term {
+func (e *Enc) normKeyLeaves(v Value, t types.Type) []Term {
 	if a, ok := t.Underlying().(*types.Array); ok && !isOpaque(t) && shapeKindOf(t) == kScalar && a.Len() <= 16 {
 		k := flatten(v)[0]
+		if len(k.S) > 200 && !strings.Contains(k.S, "!q") && !strings.Contains(k.S, "qk!") && !strings.Contains(k.S, "qi!") {
+			// name the array once: the normalisation below selects from it N times
+			k = e.define(fmt.Sprintf("karr!%d", e.nextID()), k)
+		}
 		es := scalarSort(a.Elem())
 		r := constArr(arrSort(SInt, es), zeroOfSort(es))
 		for i := int64(0); i < a.Len(); i++ {
@@ -57,7 +61,7 @@ func normKeyLeaves(v Value, t types.Type) []Term {
 		st := t.Underlying().(*types.Struct)
 		var out []Term
 		for i, f := range sv.F {
-			out = append(out, normKeyLeaves(f, st.Field(i).Type())...)
+			out = append(out, e.normKeyLeaves(f, st.Field(i).Type())...)
 		}
 		return out
 	}
@@ -65,10 +69,13 @@ func normKeyLeaves(v Value, t types.Type) []Term {
 }
 
 // canonical key term
-func (e *Enc) mapKey(v Value, kt types.Type) Term {
+func (e *Enc) mapKey(v Value, kt types.Type) Term { return e.mapKeyMemo(v, kt, nil) }
+
+// mapKeyMemo: memo (may be nil) names equal packed keys once within one evaluation context.
+func (e *Enc) mapKeyMemo(v Value, kt types.Type, memo map[string]Term) Term {
 	ks := leafSorts(kt)
 	if len(ks) > 1 {
-		leaves := normKeyLeaves(v, kt)
+		leaves := e.normKeyLeaves(v, kt)
 		name := "mkkey$" + sanitize(typeKey(kt))
 		if !e.declSet[name] {
 			e.declareFun(name, ks, SInt)
@@ -86,9 +93,23 @@ func (e *Enc) mapKey(v Value, kt types.Type) Term {
 			}
 			e.axiom(fmt.Sprintf("(forall (%s) (! (and %s) :pattern (%s)))", strings.Join(vars, " "), strings.Join(cs, " "), appl))
 		}
-		return app(SInt, smtSym(name), leaves...)
+		t := app(SInt, smtSym(name), leaves...)
+		// name the (large) packed key once; terms under a quantifier keep their bound variables inline
+		if !strings.Contains(t.S, "!q") && !strings.Contains(t.S, "qk!") && !strings.Contains(t.S, "qi!") {
+			if memo != nil {
+				if d, ok := memo[t.S]; ok {
+					return d
+				}
+			}
+			d := e.define(fmt.Sprintf("key!%d", e.nextID()), t)
+			if memo != nil {
+				memo[t.S] = d
+			}
+			return d
+		}
+		return t
 	}
-	return normKeyLeaves(v, kt)[0]
+	return e.normKeyLeaves(v, kt)[0]
 }
 
 func (e *Enc) mapDom(h *HeapState, mi mapInfo, m Term) Term {
